@@ -94,7 +94,18 @@ func randImage(r *rand.Rand) Op {
 		data = append([]byte("4a"), bytes.TrimLeft(data, "\x00\t\n\f\r ")...)
 		data = append(data, '>')
 	}
-	if r.Intn(3) == 0 && len(data) > 0 {
+	wrapped := false
+	if r.Intn(10) == 0 {
+		// line-wrapped data under an ASCII filter with a line that reads "EI"
+		// (E and I are base-85 digits, and EOLs are legal anywhere in such
+		// data): the writer has to give the length
+		m["F"] = c01.VName([]byte([]string{"AHx", "A85", "A85", "ASCII85Decode"}[r.Intn(4)]))
+		eol := []string{"\n", "\r", "\r\n"}[r.Intn(3)]
+		sep := []string{" ", "\n", "\r\n", "\t", "/", "\x00"}[r.Intn(6)]
+		data = []byte("4a6b" + eol + "EI" + sep + "7c" + []string{"", eol + "EI" + eol}[r.Intn(2)] + "~>")
+		wrapped = true
+	}
+	if r.Intn(3) == 0 && len(data) > 0 && !wrapped {
 		m["L"] = c01.VInt(int64(len(data)))
 	}
 	if r.Intn(40) == 0 {
